@@ -250,10 +250,10 @@ impl Campaign for C14 {
                                         fail(&mut rep, "misbehaviour-proof-wrong", format!("stored proof {proof} does not name locator {loc} and signer {expected_id}"));
                                     } else {
                                         // no further sending
-                                        let before = tower.served().len();
+                                        let before = tower.arrived();
                                         let _ = p.call("commitment_revocation", revocation_params(2), t);
                                         std::thread::sleep(Duration::from_millis(2500));
-                                        let after = tower.served().len();
+                                        let after = tower.arrived();
                                         if after != before {
                                             fail(&mut rep, "sent-to-misbehaving-tower", format!("{} more requests reached the tower after it was proven misbehaving", after - before));
                                         } else {
@@ -263,7 +263,7 @@ impl Campaign for C14 {
                                                 Ok(mut p2) => {
                                                     std::thread::sleep(Duration::from_millis(3000));
                                                     let st = p2.call("gettowerinfo", json!([tower.id_hex()]), t).map(|i| i["status"].as_str().unwrap_or("").to_string()).unwrap_or_default();
-                                                    let after2 = tower.served().len();
+                                                    let after2 = tower.arrived();
                                                     if after2 != after {
                                                         fail(&mut rep, "sent-to-misbehaving-tower", format!("after a restart of the client {} more requests reached the tower that had been proven misbehaving (shown as `{st}`)", after2 - after));
                                                     } else if st != "misbehaving" {
